@@ -549,6 +549,25 @@ func (net *Net) InjectVote(k int, typ tmproto.SignedMsgType, h int64, r int32, i
 	return p
 }
 
+// InjectRelabelledVote publishes, on behalf of faulty sender k, a copy of the vote in src that claims to come from
+// validator `as` (index and address of `as`, signature and everything else of the original signer). No correct node
+// may count it: the signature does not verify under the key of `as`.
+func (net *Net) InjectRelabelledVote(k int, src *Packet, as int, only map[int]bool) *Packet {
+	vm, ok := src.Msg.(*consensus.VoteMessage)
+	if !ok {
+		return nil
+	}
+	v := *vm.Vote
+	v.ValidatorAddress = lib.Key(as).PubKey().Address()
+	v.ValidatorIndex = ValIndex(net.ValSet(), as)
+	if v.ValidatorIndex < 0 {
+		return nil
+	}
+	p := net.AddPacket(k, true, &consensus.VoteMessage{Vote: &v}, only)
+	net.Logf("byz %d injects #%d %s h=%d r=%d %s: copy of #%d relabelled as validator %d", k, p.ID, p.Kind, p.H, p.R, p.Block, src.ID, as)
+	return p
+}
+
 func keys(m map[int]bool) []int {
 	if m == nil {
 		return nil
